@@ -247,6 +247,20 @@ def run(case):
                 g0.add_edge(e[0], e[1])
         g = relabel(rng, g0, case['how'])
         txt = f"{case['kind']} graph {case['gid']} edges {case['edges'][:30]} relabel={case['how']}"
+    if case['sub'] % 7 == 0:
+        # the graph already carries 3D coordinates (embedded or read from a file), in an orientation in which bonds point
+        # along z: atoms stacked on one xy point, a linear molecule on the z axis, or random coordinates with one vertical bond
+        mode = (case['sub'] // 7) % 3
+        prng = random.Random(case['sub'])
+        for i, n in enumerate(g.nodes):
+            if mode == 0:
+                g.nodes[n]['position'] = np.array([0.0, 0.0, 1.5 * i])
+            else:
+                g.nodes[n]['position'] = np.array([prng.uniform(-4, 4), prng.uniform(-4, 4), prng.uniform(-4, 4)])
+        if mode == 2 and g.number_of_edges():
+            a_, b_ = next(iter(g.edges))
+            g.nodes[b_]['position'] = g.nodes[a_]['position'] + np.array([0.0, 0.0, 1.1])
+        txt += ' [nodes carry 3D positions, mode %d]' % mode
     np.random.seed(case['sub'] % (2 ** 31))
     align = [None, None, np.array([1.0, 0.0]), np.array([0.0, 1.0]), np.array([1.0, 1.0])][case['sub'] % 5]
     try:
